@@ -14,8 +14,19 @@ pub mod c07;
 pub mod c08;
 pub mod c09;
 pub mod c10;
+pub mod c11;
 pub mod c12;
 pub mod c13;
+pub mod c14;
+pub mod c15;
+
+/// generator entry points shared with C14
+pub fn c06gen(rng: &mut crate::fw::Rng) -> Vec<crate::gen::ir::Node> {
+    c06::gen_nodes(rng)
+}
+pub fn c08gen(rng: &mut crate::fw::Rng) -> Vec<crate::gen::ir::Node> {
+    c08::random_nodes(rng)
+}
 
 pub fn run(ctx: &Ctx) -> i32 {
     fw::start_watchdog(&ctx.prop, match ctx.tier { fw::Tier::Quick => 1500, fw::Tier::Thorough => 6 * 3600 });
@@ -30,8 +41,11 @@ pub fn run(ctx: &Ctx) -> i32 {
         "C08" => c08::run(ctx),
         "C09" => c09::run(ctx),
         "C10" => c10::run(ctx),
+        "C11" => c11::run(ctx),
         "C12" => c12::run(ctx),
         "C13" => c13::run(ctx),
+        "C14" => c14::run(ctx),
+        "C15" => c15::run(ctx),
         other => {
             eprintln!("unknown property {}", other);
             2
@@ -53,8 +67,11 @@ pub fn replay(ctx: &Ctx, v: &Value) -> i32 {
         "C08" => c08::replay(ctx, case),
         "C09" => c09::replay(ctx, case),
         "C10" => c10::replay(ctx, case),
+        "C11" => c11::replay(ctx, case),
         "C12" => c12::replay(ctx, case),
         "C13" => c13::replay(ctx, case),
+        "C14" => c14::replay(ctx, case),
+        "C15" => c15::replay(ctx, case),
         other => {
             eprintln!("unknown property {}", other);
             2
